@@ -1894,6 +1894,11 @@ class Population:
             else:
                 A[i, comp_indices[obj.name]] = 1.0
 
+        # A quantity without a value cannot be matched (and NaNs would pass every tolerance check below, starting the population from zero)
+        missing = [obj.name for obj, val in zip(b_objs, b.ravel()) if not np.isfinite(val)]
+        if missing:
+            raise BadInitialization("No value at the start of the simulation for the initialization quantities %s in population '%s'" % (missing, self.name))
+
         # Solve the linear system (nb. lstsq returns the minimum norm solution
         x = np.linalg.lstsq(A, b.ravel(), rcond=None)[0].reshape(-1, 1)
         proposed = np.matmul(A, x)
